@@ -1597,6 +1597,9 @@ func payloadMismatch(e sx.Sexp, v px.Value) string {
 				if why == "" && (k.String() != kv.List[0].MustStr() || !sameValue(x, valOf(kv.List[1]))) {
 					why = fmt.Sprintf("object type %s: init entry %d is %s => %s", a[0].MustStr(), idx-1, k.String(), x.String())
 				}
+				if why == "" {
+					why = payloadMismatch(kv.List[1], x)
+				}
 			})
 			return why
 		}
@@ -1617,6 +1620,9 @@ func payloadMismatch(e sx.Sexp, v px.Value) string {
 				idx++
 				if why == "" && (k.String() != kv.List[0].MustStr() || !sameValue(x, valOf(kv.List[1]))) {
 					why = fmt.Sprintf("object type %s: init entry %d is %s => %s", a[0].MustStr(), idx-1, k.String(), x.String())
+				}
+				if why == "" {
+					why = payloadMismatch(kv.List[1], x)
 				}
 			})
 			return why
